@@ -247,8 +247,11 @@ def colmap_obligations(rep):
     from mindsdb_sql.parser.ast import BinaryOperation, Identifier, Constant
     from mindsdb_sql.planner.plan_join import TableInfo
     fn = f'{PJ}:PlanJoinTablesQuery.join_condition_to_columns_map'
-    for side in ('model-left', 'model-right', 'neither', 'const'):
-        def run(ex, side=side):
+    for side in ('model-left', 'model-right', 'neither', 'const', 'model-left-samename', 'model-right-samename'):
+        samename = side.endswith('-samename')
+        side = side.replace('-samename', '')
+
+        def run(ex, side=side, samename=samename):
             selfo = SymObj(None, 'self', prov='param')
             selfo.known_not_none = True
             model, table = SymObj({TableInfo}, 'model_table', prov='param'), SymObj({TableInfo}, 'data_table', prov='param')
@@ -256,7 +259,7 @@ def colmap_obligations(rep):
             a2 = SymObj({Identifier if side != 'const' else Constant}, 'arg2', prov='param')
             a1.fields.update(parts=ex.param_container(['m', 'mc']), alias=None, parentheses=False)
             if side != 'const':
-                a2.fields.update(parts=ex.param_container(['t', 'tc']), alias=None, parentheses=False)
+                a2.fields.update(parts=ex.param_container(['t', 'mc' if samename else 'tc']), alias=None, parentheses=False)
             owner = {'model-left': (model, table), 'model-right': (table, model), 'neither': (table, table), 'const': (model, None)}[side]
             selfo.fields['get_table_for_column'] = Stub(lambda ex_, a, k: owner[0] if a[0] is a1 else owner[1], 'get_table_for_column')
             node = SymObj({BinaryOperation}, 'cond', prov='param')
@@ -271,7 +274,7 @@ def colmap_obligations(rep):
             ex.path_state.update(res=res, node=node, a1=a1, a2=a2, root=captured.get('root'))
             return res
 
-        def post(ex, o, side=side):
+        def post(ex, o, side=side, samename=samename):
             if o.kind != 'return':
                 return f'raises {o.value.__name__}'
             st = o.state
@@ -282,7 +285,7 @@ def colmap_obligations(rep):
             if side == 'model-left':
                 ok = res == {'mc': st['a2']} and res['mc'] is st['a2'] and neutral
             elif side == 'model-right':
-                ok = set(res) == {'tc'} and res['tc'] is st['a1'] and neutral
+                ok = set(res) == {'mc' if samename else 'tc'} and res['mc' if samename else 'tc'] is st['a1'] and neutral
             else:
                 ok = res == {} and not neutral
             return None if ok else f'{side}: mapping {res!r}, condition {"neutralised" if neutral else "kept"}'
@@ -293,7 +296,7 @@ def colmap_obligations(rep):
             v = pysym.Verdict(FAILED, bad) if bad else pysym.Verdict(PROVED, f'{len(outs)} path(s)')
         except (Unsupported, PathLimit) as e:
             v = pysym.Verdict(UNDECIDED, f'{type(e).__name__}: {e}')
-        _emit(rep, f'C14.colmap.{side}', v, fn, 'an ON equality between a model column and a table column becomes {model column: table identifier} and is neutralised; other conditions are kept')
+        _emit(rep, f'C14.colmap.{side}' + ('.same-name' if samename else ''), v, fn, 'an ON equality between a model column and a table column becomes {model column: table identifier} and is neutralised; other conditions are kept')
 
 
 CONTEXTS = {
